@@ -419,7 +419,7 @@ def run(chk):
 
     # ---- support scan over the boundary grid (exact check, seeded) ----------------------------------------------------
     grid = distgrid.grid()
-    n_supp = 300000 if quick else 3000000
+    n_supp = 300000 if quick else 10000000
     supp_lines = []
     for i, (name, params, sup) in enumerate(grid):
         # sums of many variates are slow: scale the number of draws
@@ -435,8 +435,28 @@ def run(chk):
                 failures.append(("support", "`%s`: %s" % (l, detail), "#! kind=support\n# %s\n%s\n" % (detail, l)))
     samples.append({"kind": "support", "line": supp_lines[0]})
 
+    # ---- thorough: the same under ASan + UBSan (buffer overruns behind an invalid index, undefined conversions) ---------
+    if not quick:
+        san = vlib.build_impl("san")
+        c_san = vlib.cc_harness("distdrv", san)
+        san_lines = [distgrid.supp_line(name, params, sup, 20000, seed_for(chk, i, 303)) for i, (name, params, sup) in enumerate(grid)]
+        chunks = [san_lines[i::vlib.NPROC] for i in range(vlib.NPROC)]
+        for res in vlib.parallel_map(lambda ls: run_supp(c_san, ls) if ls else [], chunks):
+            for l, bad, detail, _ in res:
+                evals += 1
+                dist["support-sanitizer"] += 1
+                if bad != 0:
+                    failures.append(("support", "`%s` (ASan/UBSan build): %s" % (l, detail), "#! kind=support\n# ASan/UBSan build: %s\n%s\n" % (detail, l)))
+        if drivers_ok:
+            sub = scripts[:300]
+            for (lines, exact), (msg, _st) in zip(sub, vlib.parallel_map(lambda s_: judge_script(c_san, s_[0], s_[1]), sub)):
+                evals += 1
+                dist["corr-sanitizer"] += 1
+                if msg:
+                    failures.append(("corr", "(ASan/UBSan build) " + msg, "#! kind=corr exact=%d\n# ASan/UBSan build: %s\n%s\n" % (1 if exact else 0, msg, "\n".join(lines))))
+
     # ---- statistical tier (test evidence) ---------------------------------------------------------------------------
-    n_stat = 200000 if quick else 1000000
+    n_stat = 200000 if quick else 3000000
     jobs = [stat_job(name, params, sup, n_stat, seed_for(chk, i, 202)) for i, (name, params, sup) in enumerate(grid)]
     stat_res = run_stat(c_exe, jobs)
     worst = {"mean_z": 0.0, "var_z": 0.0, "ks_over_threshold": 0.0, "chi2_over_threshold": 0.0}
